@@ -185,11 +185,18 @@ def counterexample(scratch, ob, log=print):
     # Kani de-duplicates playback tests by concrete values, so the counterexample of the failing check may be
     # labelled with a cover! goal that happens to share its inputs. Run ALL of them natively against the real
     # code and keep the ones that actually fail there.
+    # Kani may print the same test twice (same inputs for a cover! goal and the failing check): keep one per name
+    uniq = {}
+    for t in tests:
+        m0 = re.search(r"fn (kani_concrete_playback_\w+)", t)
+        if m0 and m0.group(1) not in uniq:
+            uniq[m0.group(1)] = t
+    tests = list(uniq.values())
+    names = list(uniq.keys())
     hfile = os.path.join(scratch.kani_src, os.path.basename(ob.src_file))
     with open(hfile, "a") as f:
         for t in tests:
             f.write("\n" + t + "\n")
-    names = [re.search(r"fn (kani_concrete_playback_\w+)", t).group(1) for t in tests]
     chosen = None
     try:
         p2 = subprocess.run(["cargo", "kani", "playback", "-Z", "concrete-playback", "-Z", "stubbing", "--",
@@ -211,7 +218,7 @@ def counterexample(scratch, ob, log=print):
             reproduced = None
         keep = [l for l in pout.splitlines() if ("panicked" in l or "test result" in l or "... FAILED" in l or "... ok" in l
                                                   or l.strip().startswith(("O-", "attempt", "index", "range")))]
-        note = "" if chosen else "\n(none of the %d generated inputs failed natively)" % len(tests)
+        note = "" if chosen else "\n(none of the %d generated inputs failed natively)\n%s" % (len(tests), "\n".join(l for l in pout.splitlines() if l.startswith("error"))[:600])
         return chosen, kani_tail + "\n--- native playback on the real code ---\n" + "\n".join(keep[-25:]) + note, reproduced
     except subprocess.TimeoutExpired:
         return chosen, kani_tail + "\n(native playback timed out)", None
